@@ -5,6 +5,7 @@ import (
 	"context"
 	"fmt"
 	"io"
+	"os"
 
 	"github.com/itchio/headway/state"
 	"github.com/itchio/lake"
@@ -53,6 +54,26 @@ func Sign(dir string) (*tlc.Container, []wsync.BlockHash, error) {
 	}
 	hs, err := pwr.ComputeSignature(context.Background(), c, fspool.New(c, dir), Quiet())
 	return c, hs, err
+}
+
+// SignatureOf returns the signature of dir: computed directly, or (stream) read back with
+// pwr.ReadSignature from the signature stream that a diff "nothing -> dir" writes - what butler
+// validates and heals against.
+func SignatureOf(dir string, stream bool) (*pwr.SignatureInfo, error) {
+	if !stream {
+		c, hs, err := Sign(dir)
+		if err != nil {
+			return nil, err
+		}
+		return &pwr.SignatureInfo{Container: c, Hashes: hs}, nil
+	}
+	ed := TempDir("empty")
+	defer os.RemoveAll(ed)
+	df, err := Diff(ed, dir, Comp{}, nil)
+	if err != nil {
+		return nil, err
+	}
+	return ReadSig(df.Sig)
 }
 
 // SignWith is Sign with the pool wrapped (e.g. by a jittering pool).
